@@ -14,6 +14,9 @@ structure Ctx where
   cap    : Nat
   parked : List Nat            -- calls blocked in Recv on this context (FIFO)
   closed : Bool
+  -- ghost: the matching messages offered to this context while it was open, in arrival order, and what its Recvs returned
+  seen   : List Bytes := []
+  got    : List Bytes := []
 deriving Repr, BEq
 
 structure State where
@@ -21,6 +24,8 @@ structure State where
   closed  : Bool
   pipes   : List Nat
   defCap  : Nat
+  -- ghost: every published message that reached the socket, in arrival order
+  arrived : List Bytes := []
 deriving Repr, BEq
 
 def init : State := { ctxs := [{ id := 0, subs := [], q := [], cap := 128, parked := [], closed := false }], closed := false, pipes := [], defCap := 128 }
@@ -32,11 +37,11 @@ def Ctx.matches (c : Ctx) (body : Bytes) : Bool := c.subs.any (fun s => isPrefix
 def Ctx.offer (c : Ctx) (body : Bytes) : Ctx × List (Nat × Ev) :=
   if c.closed || !c.matches body then (c, []) else
   match c.parked with
-  | call :: rest => ({ c with parked := rest }, [(call, retMsg call [] body)])
+  | call :: rest => ({ c with parked := rest, seen := c.seen ++ [body], got := c.got ++ [body] }, [(call, retMsg call [] body)])
   | [] =>
-    if c.q.length < c.cap then ({ c with q := c.q ++ [body] }, [])
+    if c.q.length < c.cap then ({ c with q := c.q ++ [body], seen := c.seen ++ [body] }, [])
     else if c.cap = 0 then (c, [])           -- a queue of length zero never has room: the message is dropped
-    else ({ c with q := c.q.tail ++ [body] }, [])
+    else ({ c with q := c.q.tail ++ [body], seen := c.seen ++ [body] }, [])
 
 def Ctx.subscribe (c : Ctx) (t : Bytes) : Ctx :=
   if c.subs.contains t then c else { c with subs := c.subs ++ [t] }
@@ -57,7 +62,7 @@ def getCtx (s : State) (id : Nat) : Option Ctx := s.ctxs.find? (fun c => c.id = 
 /-- deliver one published message to every context -/
 def deliver (s : State) (body : Bytes) : State × List (Nat × Ev) :=
   let rs := s.ctxs.map (fun c => c.offer body)
-  ({ s with ctxs := rs.map (·.1) }, rs.flatMap (·.2))
+  ({ s with ctxs := rs.map (·.1), arrived := s.arrived ++ [body] }, rs.flatMap (·.2))
 
 def wake (c : Ctx) (e : String) : List (Nat × Ev) := c.parked.map (fun call => (call, retErr call e))
 
@@ -79,9 +84,9 @@ def step (s : State) (op : List String) : List (State × List Ev) :=
         -- select between the closed channel and a non-empty queue: either may win
         match c.q with
         | [] => [(s, [retErr call "closed"])]
-        | m :: rest => [(s, [retErr call "closed"]), (modifyCtx s c.id (fun c => { c with q := c.q.tail }), [retMsg call [] m])]
+        | m :: rest => [(s, [retErr call "closed"]), (modifyCtx s c.id (fun c => { c with q := c.q.tail, got := c.got ++ c.q.take 1 }), [retMsg call [] m])]
       else match c.q with
-        | m :: rest => [(modifyCtx s c.id (fun c => { c with q := c.q.tail }), [retMsg call [] m])]
+        | m :: rest => [(modifyCtx s c.id (fun c => { c with q := c.q.tail, got := c.got ++ c.q.take 1 }), [retMsg call [] m])]
         | [] => [(modifyCtx s c.id (fun c => { c with parked := c.parked ++ [call] }), [])]
   | ["setopt", ctx, "SUBSCRIBE", t] =>
     [(modifyCtx s (natOf ctx) (fun c => c.subscribe (bytesOf t)), [Ev.res "ok"])]
@@ -97,6 +102,7 @@ def step (s : State) (op : List String) : List (State × List Ev) :=
     [(modifyCtx s (natOf ctx) (fun c => { c with q := [], cap := natOf n }), [Ev.res "ok"])]
   | ["openctx", id] =>
     if s.closed then [(s, [Ev.res "closed"])] else
+    if (getCtx s (natOf id)).isSome then [] else     -- context ids are never reused
     let cap := match getCtx s 0 with | some m => m.cap | none => s.defCap
     [({ s with ctxs := s.ctxs ++ [{ id := natOf id, subs := [], q := [], cap := cap, parked := [], closed := false }] }, [Ev.res "ok"])]
   | ["closectx", id] =>
